@@ -160,6 +160,11 @@ func cmdCheck(args []string) {
 		}
 	}
 	genSecs := time.Since(genT0).Seconds()
+	if len(obls) == 0 && len(viols) == 0 {
+		// vacuity guard: a property without a single generated obligation is not checked at all
+		fmt.Fprintf(os.Stderr, "property %s: no obligations generated (no contract clause carries this tag)\n", *prop)
+		os.Exit(2)
+	}
 	work := filepath.Join(*verif, ".work", *prop+"-"+*tier)
 	os.RemoveAll(work)
 	vc.Discharge(obls, vc.SolveOpts{Timeout: timeout, Workers: 14, TmpDir: work})
@@ -252,7 +257,7 @@ func cmdCheck(args []string) {
 		}
 	}
 	// evidence
-	var samples []interface{}
+	samples := []interface{}{}
 	for i, o := range obls {
 		if i%(len(obls)/8+1) == 0 {
 			samples = append(samples, map[string]interface{}{"obligation": o.ID(), "clause": o.Text, "status": o.Status, "solver": o.Solver, "seconds": round3(o.Seconds), "smt_facts": o.NFact})
